@@ -88,7 +88,7 @@ CHECKS = {
     "C13": {
         "level": "model_checking",
         "technique": "TLA+ Server.tla (no action writes fs: EnvFsUnchanged model-checked by TLC); wire traces of the real binary under strace validated by TLC (Trace_Server: TSyscall has no action for mutating calls, TManifest requires the manifest unchanged)",
-        "text": "All single mutations of 34 seed requests (incl. PUT/DELETE/PATCH/POST uploads, multipart file parts with harmless, existing, nested and outside-pointing filenames, ?name= values pointing outside) and 10 asset/dir targets x 6 methods are sent to the real binary running under strace -f; every path-naming system call is an event, and the full manifest (paths, kinds, sizes, hashes, link targets) of the served tree, a sibling directory and the parent is compared before/after.",
+        "text": "All single mutations of 35 seed requests (incl. PUT/DELETE/PATCH/POST uploads, multipart file parts with harmless, existing, nested and outside-pointing filenames, ?name= values pointing outside) and 10 asset/dir targets x 6 methods are sent to the real binary running under strace -f; every path-naming system call is an event, and the full manifest (paths, kinds, sizes, hashes, link targets) of the served tree, a sibling directory and the parent is compared before/after.",
         "note": "Trusted: strace's view of the process, the manifest walker. Paths under /dev, /proc, /sys are exempt.",
     },
     "C14": {
